@@ -74,6 +74,16 @@ fn run_rt(case: &Json) -> Json {
                 let out = rt_pop(&mut q);
                 json!({"out": out, "empty": q.is_empty()})
             }
+            "drain" => {
+                let mut d = vec![];
+                let mut budget = 10_000;
+                while !q.is_empty() && budget > 0 {
+                    d.push(json!({"to": "L", "out": rt_pop(&mut q)}));
+                    budget -= 1;
+                }
+                d.push(json!({"to": "L", "out": rt_pop(&mut q)}));
+                json!({"drained": d, "empty": q.is_empty()})
+            }
             k => panic!("bad act {}", k),
         };
         obs.push(o);
@@ -169,7 +179,57 @@ fn to_raw<K: J, V: J>(op: &MapOperation<K, &V>) -> MapOperation<BytesMut, BytesM
 }
 
 macro_rules! gen_run_ag {
-    ($name:ident, $map:ident) => {
+    ($name:ident, $popname:ident, $map:ident) => {
+        fn $popname<K: J, V: J>(
+            inner: &mut MapStoreInner<K, V, WriteQueues<K>, $map<K, V>>,
+            ids: &[(String, Uuid)],
+            comp: bool,
+            linked: &[String],
+            queues: &mut HashMap<String, MapOperationQueue>,
+        ) -> Json {
+            let (out, fwd): (Json, Option<(Option<String>, MapOperation<BytesMut, BytesMut>)>) =
+                match inner.pop_operation() {
+                    None => (json!({"t": "none"}), None),
+                    Some(LaneResponse::StandardEvent(op)) => {
+                        let mut j = op_json(&op);
+                        j["t"] = json!("event");
+                        (j, Some((None, to_raw(&op))))
+                    }
+                    Some(LaneResponse::SyncEvent(id, op)) => {
+                        let mut j = op_json(&op);
+                        j["t"] = json!("sync");
+                        let n = name_of(ids, &id);
+                        j["id"] = json!(n);
+                        (j, Some((Some(n), to_raw(&op))))
+                    }
+                    Some(LaneResponse::Synced(id)) => (json!({"t": "synced", "id": name_of(ids, &id)}), None),
+                    Some(LaneResponse::Initialized) => (json!({"t": "initialized"}), None),
+                };
+            if comp {
+                if let Some((target, raw)) = fwd {
+                    match target {
+                        Some(n) => {
+                            queues.get_mut(&n).expect("queue").push(raw).expect("utf8");
+                        }
+                        None => {
+                            for n in linked {
+                                let copy = match &raw {
+                                    MapOperation::Update { key, value } => MapOperation::Update {
+                                        key: key.clone(),
+                                        value: value.clone(),
+                                    },
+                                    MapOperation::Remove { key } => MapOperation::Remove { key: key.clone() },
+                                    MapOperation::Clear => MapOperation::Clear,
+                                };
+                                queues.get_mut(n).expect("queue").push(copy).expect("utf8");
+                            }
+                        }
+                    }
+                }
+            }
+            out
+        }
+
 fn $name<K: J, V: J>(case: &Json, comp: bool) -> Json {
     let ids = ids(case);
     let mut inner: MapStoreInner<K, V, WriteQueues<K>, $map<K, V>> = MapStoreInner::new($map::new());
@@ -220,48 +280,37 @@ fn $name<K: J, V: J>(case: &Json, comp: bool) -> Json {
                 json!({"keys": rep})
             }
             "agpop" => {
-                let (out, fwd): (Json, Option<(Option<String>, MapOperation<BytesMut, BytesMut>)>) =
-                    match inner.pop_operation() {
-                        None => (json!({"t": "none"}), None),
-                        Some(LaneResponse::StandardEvent(op)) => {
-                            let mut j = op_json(&op);
-                            j["t"] = json!("event");
-                            (j, Some((None, to_raw(&op))))
-                        }
-                        Some(LaneResponse::SyncEvent(id, op)) => {
-                            let mut j = op_json(&op);
-                            j["t"] = json!("sync");
-                            let n = name_of(&ids, &id);
-                            j["id"] = json!(n);
-                            (j, Some((Some(n), to_raw(&op))))
-                        }
-                        Some(LaneResponse::Synced(id)) => (json!({"t": "synced", "id": name_of(&ids, &id)}), None),
-                        Some(LaneResponse::Initialized) => (json!({"t": "initialized"}), None),
-                    };
+                let out = $popname(&mut inner, &ids, comp, &linked, &mut queues);
+                json!({"out": out})
+            }
+            "drain" => {
+                // pop_operation until it yields nothing, then every consumer catches up
+                let mut d = vec![];
+                let mut budget = 10_000;
+                loop {
+                    let out = $popname(&mut inner, &ids, comp, &linked, &mut queues);
+                    let none = out["t"] == "none";
+                    d.push(json!({"ag": out}));
+                    budget -= 1;
+                    if none || budget == 0 {
+                        break;
+                    }
+                }
                 if comp {
-                    if let Some((target, raw)) = fwd {
-                        match target {
-                            Some(n) => {
-                                let q = queues.get_mut(&n).expect("queue");
-                                q.push(raw).expect("utf8");
-                            }
-                            None => {
-                                for n in &linked {
-                                    let copy = match &raw {
-                                        MapOperation::Update { key, value } => MapOperation::Update {
-                                            key: key.clone(),
-                                            value: value.clone(),
-                                        },
-                                        MapOperation::Remove { key } => MapOperation::Remove { key: key.clone() },
-                                        MapOperation::Clear => MapOperation::Clear,
-                                    };
-                                    queues.get_mut(n).expect("queue").push(copy).expect("utf8");
-                                }
+                    for n in &linked {
+                        let q = queues.get_mut(n).expect("queue");
+                        loop {
+                            let out = rt_pop(q);
+                            let none = out["op"] == "none";
+                            d.push(json!({"to": n, "out": out}));
+                            budget -= 1;
+                            if none || budget <= 0 {
+                                break;
                             }
                         }
                     }
                 }
-                json!({"out": out})
+                json!({"drained": d})
             }
             "rtpop" => {
                 let n = a["to"].as_str().unwrap();
@@ -283,8 +332,8 @@ fn $name<K: J, V: J>(case: &Json, comp: bool) -> Json {
 }
     };
 }
-gen_run_ag!(run_ag_btree, BTreeMap);
-gen_run_ag!(run_ag_hash, HashMap);
+gen_run_ag!(run_ag_btree, ag_pop_btree, BTreeMap);
+gen_run_ag!(run_ag_hash, ag_pop_hash, HashMap);
 
 macro_rules! gen_run_td {
     ($name:ident, $map:ident) => {
@@ -324,6 +373,34 @@ fn run_probe(case: &Json) -> Json {
     json!({"obs": obs})
 }
 
+fn run_print<K: J, V: J>(case: &Json) -> Json {
+    let mut obs = vec![];
+    for a in case["acts"].as_array().unwrap() {
+        let mut o = json!({});
+        if !a["key"].is_null() {
+            let k = K::from_json(&a["key"]);
+            o["key"] = json!(print_recon_compact(&k).to_string());
+            o["key_json"] = k.to_json();
+        }
+        if !a["val"].is_null() {
+            let v = V::from_json(&a["val"]);
+            o["val"] = json!(print_recon_compact(&v).to_string());
+            o["val_json"] = v.to_json();
+        }
+        obs.push(o);
+    }
+    json!({"obs": obs})
+}
+
+fn run_print_dispatch(case: &Json) -> Json {
+    match case["cfg"]["ktype"].as_str().unwrap_or("i32") {
+        "i32" => run_print::<i32, i32>(case),
+        "string" => run_print::<String, String>(case),
+        "value" => run_print::<Value, Value>(case),
+        k => panic!("bad ktype {}", k),
+    }
+}
+
 fn run_ag_dispatch(case: &Json, comp: bool) -> Json {
     let kt = case["cfg"]["ktype"].as_str().unwrap_or("i32");
     let hash = case["cfg"]["backing"].as_str().unwrap_or("btree") == "hash";
@@ -359,6 +436,7 @@ pub fn run_case(case: &Json) -> Json {
         "comp" => run_ag_dispatch(case, true),
         "td" => run_td_dispatch(case),
         "probe" => run_probe(case),
+        "print" => run_print_dispatch(case),
         m => panic!("bad mode {}", m),
     }
 }
